@@ -37,6 +37,9 @@ func (g *gen) desiredChild(k kidSpec, name, ns, app string, variant int) J {
 		spec["ports"] = A{J{"containerPort": int64(80), "protocol": "TCP"}}
 	}
 	o["spec"] = spec
+	if g.r.Chance(1, 5) {
+		o["status"] = J{"phase": "Wanted"} // a hook that (wrongly but harmlessly) returns a status block
+	}
 	return o
 }
 
@@ -187,6 +190,13 @@ func (g *gen) basic(family string, i int, seed uint64) *scenario {
 		}
 		if ref.Op != "" {
 			sc.Setup = append(sc.Setup, ref)
+		}
+		if (ref.Op == "edit" || ref.Op == "") && r.Chance(1, 4) {
+			// ... and on top of that the child is already terminating, held by someone's finalizer
+			d2 := ref
+			d2.Op, d2.Data = "deleting", J{"finalizers": A{"example.com/hold"}}
+			sc.Setup = append(sc.Setup, d2)
+			sc.Features = append(sc.Features, "child-deleting")
 		}
 		_ = j
 	}
